@@ -4,9 +4,15 @@
 //!   rt <ty> <seed> <value..>  value regenerated from <seed> (must print as <value..>); encode, decode
 //!   mut <ty> <hex> <k>        KeepRaw: decode, `deref_mut()` + mutate with k, re-encode
 //!   peek <ty> <hex>           KeepRaw: decode, `deref()` only, re-encode
+//!   kr.dec|kr.from <ty> <hex>, kr.own, kr.clone, kr.peek, kr.mut <k>, kr.clear, kr.enc, kr.raw, kr.unwrap
+//!                             a live KeepRaw driven through its public operations (decode / From<T>, to_owned, clone,
+//!                             deref, deref_mut + mutation, clear_raw, encode, raw_cbor, unwrap), one op per line
+//!   conv <name> <hex>         conversions that must keep the form / content (NonEmptyKeyValuePairs::try_from(KeyValuePairs),
+//!                             to_vec / From<Vec>, AnyCbor::from_encode / into_decode / unwrap, Set::from(Set<KeepRaw<_>>))
 //! Oracles (`!viol`): `rt-*` = decoding the encoding of a value does not give an equal value;
 //! `pres-loss <class> ty=..` = a retaining wrapper re-encodes an accepted input differently;
-//! `keepraw-mut` = a mutated KeepRaw does not re-encode from the new content.
+//! `keepraw-mut` / `keepraw-history ..` = a KeepRaw that was mutated at any point of its history does not re-encode from
+//! the new content (or still exposes stale raw bytes), or an unmutated one lost its original span; `conv-form ..` = a conversion changed form / content.
 use crate::fw::*;
 use crate::streams::minicbor::err_class;
 use pallas_codec::minicbor::{self, Decode, Decoder, Encode};
@@ -271,7 +277,16 @@ fn restyle_item(rng: &mut Rng, b: &[u8], pos: usize, p_wide: u64, p_indef: u64, 
                 let mut p = nx; out.push(b[pos]);
                 loop { if *b.get(p)? == 0xff { out.push(0xff); return Some(p + 1); } let (_, _, l, q) = read_head(b, p)?; let e = q + l as usize; out.extend_from_slice(b.get(p..e)?); p = e; }
             }
-            let e = nx + v as usize; put_head(rng, m, v, p_wide, out); out.extend_from_slice(b.get(nx..e)?); Some(e)
+            let e = nx + v as usize;
+            let body = b.get(nx..e)?;
+            if rng.below(400) < p_indef {
+                // the same string in the indefinite form: 0..2 definite chunks (`bytes()`/`str()` reject it, the `_iter` forms and `skip()` take it)
+                out.push(m << 5 | 31);
+                let cut = if m == 2 && !body.is_empty() { rng.below(body.len() as u64 + 1) as usize } else { body.len() };
+                for part in [&body[..cut], &body[cut..]] { if !part.is_empty() || rng.chance(1, 4) { put_head(rng, m, part.len() as u64, p_wide, out); out.extend_from_slice(part); } }
+                out.push(0xff);
+            } else { put_head(rng, m, v, p_wide, out); out.extend_from_slice(body); }
+            Some(e)
         }
         4 | 5 => {
             let mut kids: Vec<u8> = vec![]; let mut p = nx; let mut count = 0u64;
@@ -443,9 +458,44 @@ pub fn generate(g: &mut Gen) {
             g.case(ops);
         }
     }
-    let n = g.cases.saturating_sub(3);
+    // every KeepRaw history shape of the seeded-change report and its neighbours, on every run
+    g.case(vec!["kr.dec keepraw.vec.u64 9f0102ff".to_string(), "kr.own".into(), "kr.enc".into(), "kr.mut 3".into(), "kr.enc".into(), "kr.raw".into()]);
+    g.case(vec!["kr.dec keepraw.vec.u64 9f0102ff".to_string(), "kr.clone".into(), "kr.mut 3".into(), "kr.own".into(), "kr.enc".into(), "kr.raw".into()]);
+    g.case(vec!["kr.dec keepraw.anyuint 1805".to_string(), "kr.own".into(), "kr.clone".into(), "kr.own".into(), "kr.raw".into(), "kr.mut 7".into(), "kr.enc".into(), "kr.raw".into(), "kr.unwrap".into(), "kr.enc".into()]);
+    g.case(vec!["kr.from keepraw.vec.u64 9f0102ff".to_string(), "kr.enc".into(), "kr.raw".into(), "kr.own".into(), "kr.mut 9".into(), "kr.enc".into(), "kr.clear".into(), "kr.enc".into()]);
+    g.case(vec!["conv kvp2ne bf0102ff".to_string(), "conv kvp2ne a10102".into(), "conv kvp2ne a0".into(), "conv kvp2ne bfff".into(), "conv kvp2vec bf0102ff".into(),
+        "conv mia2vec 9f0102ff".into(), "conv anycbor.from_encode 9f011802ff".into(), "conv set.unkeep d9010282180105".into(), "conv set.unkeep 9f1805ff".into()]);
+    let n = g.cases.saturating_sub(8);
     for i in 0..n {
         let mut rng = g.rng.fork();
+        if i % 10 == 9 {
+            // a random history of the public KeepRaw operations on a real value, observed through encode / raw_cbor
+            let ty = if rng.chance(1, 2) { "keepraw.vec.u64" } else { "keepraw.anyuint" };
+            let b = (reg[ty].gen_bytes)(&mut rng);
+            let mut ops = vec![format!("{} {} {}", if rng.chance(3, 4) { "kr.dec" } else { "kr.from" }, ty, hex(&b))];
+            for _ in 0..1 + rng.below(8) {
+                ops.push(match rng.below(12) {
+                    0..=2 => "kr.own".to_string(), 3 | 4 => "kr.clone".to_string(), 5 | 6 => format!("kr.mut {}", rng.u64_edgy() & 0xffff),
+                    7 => "kr.peek".to_string(), 8 => "kr.clear".to_string(), 9 | 10 => "kr.enc".to_string(), _ => "kr.raw".to_string(),
+                });
+            }
+            ops.push("kr.enc".into()); ops.push("kr.raw".into());
+            if rng.chance(1, 3) { ops.push("kr.unwrap".into()); }
+            g.case(ops);
+            continue;
+        }
+        if i % 10 == 8 {
+            let mut ops = vec![];
+            for _ in 0..1 + rng.below(3) {
+                let (conv, ty) = *rng.pick(&[("kvp2ne", "kvp.anyuint.anyuint"), ("kvp2vec", "kvp.anyuint.anyuint"), ("mia2vec", "mia.anyuint"),
+                    ("anycbor.from_encode", "mia.anyuint"), ("set.unkeep", "set.keepraw.anyuint")]);
+                let mut b = (reg[ty].gen_bytes)(&mut rng);
+                if rng.chance(1, 8) && !b.is_empty() { let c = rng.below(b.len() as u64) as usize; b.truncate(c); }
+                ops.push(format!("conv {} {}", conv, hex(&b)));
+            }
+            g.case(ops);
+            continue;
+        }
         let name = names[i % names.len()].as_str();
         let e = &reg[name];
         let mut ops = vec![];
@@ -497,9 +547,147 @@ fn mut_op(ty: &str, bytes: &'static [u8], k: u64, mutate: bool, out: &mut Out) {
     }
 }
 
+/// a live `KeepRaw` value of a case, driven through its public operations
+trait KrSlot {
+    fn own(self: Box<Self>) -> Box<dyn KrSlot>;
+    fn dup(&self) -> Box<dyn KrSlot>;
+    fn peek(&self) -> String;
+    fn mutate(&mut self, k: u64);
+    fn clear(&mut self);
+    fn enc(&self) -> Vec<u8>;
+    fn raw(&self) -> Vec<u8>;
+    fn fresh(&self) -> Vec<u8>;
+    fn unwrap_show(self: Box<Self>) -> String;
+}
+struct Kr<T: 'static>(KeepRaw<'static, T>, fn(&mut T, u64));
+impl<T: Canon + Clone + Encode<()> + 'static> KrSlot for Kr<T> {
+    fn own(self: Box<Self>) -> Box<dyn KrSlot> { let f = self.1; Box::new(Kr(self.0.to_owned(), f)) }
+    fn dup(&self) -> Box<dyn KrSlot> { Box::new(Kr(self.0.clone(), self.1)) }
+    fn peek(&self) -> String { self.0.deref().show() }
+    fn mutate(&mut self, k: u64) { (self.1)(self.0.deref_mut(), k) }
+    fn clear(&mut self) { self.0.clear_raw() }
+    fn enc(&self) -> Vec<u8> { minicbor::to_vec(&self.0).unwrap() }
+    fn raw(&self) -> Vec<u8> { self.0.raw_cbor().to_vec() }
+    fn fresh(&self) -> Vec<u8> { minicbor::to_vec(self.0.deref()).unwrap() }
+    fn unwrap_show(self: Box<Self>) -> String { self.0.unwrap().show() }
+}
+/// (value, the span it was decoded from if any, has its raw been invalidated by deref_mut / clear_raw)
+type KrState = Option<(Box<dyn KrSlot>, Option<Vec<u8>>, bool)>;
+
+fn kr_install<T: Canon + Clone + Encode<()> + Decode<'static, ()> + 'static>(bytes: &'static [u8], from: bool, f: fn(&mut T, u64), out: &mut Out) -> KrState {
+    let mut d = Decoder::new(bytes);
+    if from {
+        match d.decode::<T>() {
+            Ok(v) => { out.ok(v.show()); Some((Box::new(Kr(KeepRaw::from(v), f)), None, false)) }
+            Err(e) => { out.err(err_class(&e)); None }
+        }
+    } else {
+        match d.decode::<KeepRaw<'static, T>>() {
+            Ok(k) => { out.ok(k.deref().show()); let span = bytes[..d.position()].to_vec(); Some((Box::new(Kr(k, f)), Some(span), false)) }
+            Err(e) => { out.err(err_class(&e)); None }
+        }
+    }
+}
+
+fn kr_op(st: &mut KrState, op: &[String], out: &mut Out) {
+    if op[0] == "kr.dec" || op[0] == "kr.from" {
+        let (Some(ty), Some(b)) = (op.get(1), op.get(2).and_then(|h| unhex(h))) else { out.reply("bad-op".into()); return; };
+        let from = op[0] == "kr.from";
+        *st = match ty.as_str() {
+            "keepraw.vec.u64" => kr_install::<Vec<u64>>(leak(b), from, |v, k| v.push(k), out),
+            "keepraw.anyuint" => kr_install::<AnyUInt>(leak(b), from, |v, k| *v = AnyUInt::U16(k as u16), out),
+            _ => { out.reply("bad-op".into()); return; }
+        };
+        return;
+    }
+    let Some((slot, orig, invalidated)) = st.take() else { out.err("empty"); return; };
+    match op[0].as_str() {
+        "kr.own" => { *st = Some((slot.own(), orig, invalidated)); out.reply("ok".into()); }
+        "kr.clone" => { let c = slot.dup(); drop(slot); *st = Some((c, orig, invalidated)); out.reply("ok".into()); }
+        "kr.clear" => { let mut s = slot; s.clear(); *st = Some((s, orig, true)); out.reply("ok".into()); }
+        "kr.mut" => match op.get(1).and_then(|k| k.parse::<u64>().ok()) {
+            Some(k) => { let mut s = slot; s.mutate(k); *st = Some((s, orig, true)); out.reply("ok".into()); }
+            None => { *st = Some((slot, orig, invalidated)); out.reply("bad-op".into()); }
+        },
+        "kr.peek" => { out.ok(slot.peek()); *st = Some((slot, orig, invalidated)); }
+        "kr.unwrap" => { out.ok(slot.unwrap_show()); }
+        "kr.enc" => {
+            let got = slot.enc();
+            out.ok(hex(&got));
+            // the property, evaluated on the history: after any mutation the current content, before any the original span
+            let want = match (&orig, invalidated) { (Some(span), false) => span.clone(), _ => slot.fresh() };
+            if got != want {
+                out.viol(format!("keepraw-history {}", if invalidated { "stale-after-mutation" } else { "original-lost" }),
+                    format!("after this history the wrapper encodes as {} (expected {})", hex(&got), hex(&want)));
+            }
+            out.nontrivial();
+            *st = Some((slot, orig, invalidated));
+        }
+        "kr.raw" => {
+            let got = slot.raw();
+            out.ok(hex(&got));
+            let want = match (&orig, invalidated) { (Some(span), false) => span.clone(), _ => vec![] };
+            if got != want { out.viol(format!("keepraw-history raw-cbor {}", if invalidated { "stale-after-mutation" } else { "original-lost" }), format!("raw_cbor() is {} (expected {})", hex(&got), hex(&want))); }
+            *st = Some((slot, orig, invalidated));
+        }
+        _ => { *st = Some((slot, orig, invalidated)); out.reply("bad-op".into()); }
+    }
+}
+
+fn conv_op(name: &str, bytes: &'static [u8], out: &mut Out) {
+    macro_rules! dec { ($t:ty) => { match minicbor::decode::<$t>(bytes) { Ok(v) => v, Err(e) => { out.err(err_class(&e)); return; } } } }
+    match name {
+        "kvp2ne" => {
+            let kvp = dec!(KeyValuePairs<U, U>);
+            match NonEmptyKeyValuePairs::try_from(kvp.clone()) {
+                Err(_) => { out.err("empty"); if !kvp.is_empty() { out.viol("conv-form kvp2ne", "non-empty KeyValuePairs refused"); } }
+                Ok(ne) => {
+                    let got = minicbor::to_vec(&ne).unwrap();
+                    out.ok(hex(&got));
+                    if got != minicbor::to_vec(&kvp).unwrap() { out.viol("conv-form kvp2ne", format!("definite/indefinite form or entries changed by the conversion: {}", hex(&got))); }
+                }
+            }
+        }
+        "kvp2vec" => {
+            let kvp = dec!(KeyValuePairs<U, U>);
+            let back = KeyValuePairs::from(kvp.clone().to_vec());
+            out.ok(hex(&minicbor::to_vec(&back).unwrap()));
+            if !matches!(back, KeyValuePairs::Def(_)) || back.to_vec() != kvp.to_vec() { out.viol("conv-form kvp2vec", "entries changed by to_vec / From<Vec>"); }
+        }
+        "mia2vec" => {
+            let mia = dec!(MaybeIndefArray<U>);
+            let v = mia.clone().to_vec();
+            out.ok(hex(&minicbor::to_vec(&v).unwrap()));
+            if &v != mia.deref() { out.viol("conv-form mia2vec", "elements changed by to_vec"); }
+        }
+        "anycbor.from_encode" => {
+            let mia = dec!(MaybeIndefArray<U>);
+            let any = AnyCbor::from_encode(mia.clone());
+            out.ok(hex(&minicbor::to_vec(&any).unwrap()));
+            if any.raw_bytes() != &minicbor::to_vec(&mia).unwrap()[..] { out.viol("conv-form anycbor.from_encode", "from_encode does not hold the encoding of the value"); }
+            if any.clone().into_decode::<MaybeIndefArray<U>>().ok().as_ref() != Some(&mia) { out.viol("conv-form anycbor.into_decode", "into_decode(from_encode(v)) != v"); }
+            if any.clone().unwrap() != any.raw_bytes() { out.viol("conv-form anycbor.unwrap", "unwrap differs from raw_bytes"); }
+        }
+        "set.unkeep" => {
+            let ks = dec!(Set<KeepRaw<'static, U>>);
+            let inner: Vec<U> = ks.iter().map(|k| *k.deref()).collect();
+            let plain: Set<U> = Set::from(ks);
+            out.ok(hex(&minicbor::to_vec(&plain).unwrap()));
+            if plain.deref() != &inner { out.viol("conv-form set.unkeep", "elements changed by Set::from(Set<KeepRaw<_>>)"); }
+        }
+        _ => out.reply("bad-op".into()),
+    }
+}
+
 pub fn run_case(case: &Case, out: &mut Out) {
     let reg = registry();
+    let mut kr: KrState = None;
     for op in &case.ops {
+        if op[0].starts_with("kr.") { if guard_mut(|| kr_op(&mut kr, op, out)).is_none() { out.panic(); kr = None; } continue; }
+        if op[0] == "conv" && op.len() == 3 {
+            match unhex(&op[2]) { Some(b) => { if guard_mut(|| conv_op(&op[1], leak(b), out)).is_none() { out.panic(); } } None => out.reply("bad-op".into()) }
+            continue;
+        }
         let ty = op.get(1).map(|s| s.as_str()).unwrap_or("");
         match (op[0].as_str(), reg.get(ty)) {
             ("dec", Some(e)) if op.len() == 3 => match unhex(&op[2]) { Some(b) => (e.dec)(leak(b), ty, out), None => out.reply("bad-op".into()) },
